@@ -292,6 +292,34 @@ def features(d=None):
     # 1.34 mappings
     add('1.34 mappings accepted in PUT allocations', 34,
         lambda v, s: put_k3(v, s, mappings=True), st_in(204), st_in(400), 12)
+    # fields of the bodies of POST /allocations (from 1.13) and POST /reshaper
+    # (from 1.30): each entry is a PUT /allocations body and gains the same
+    # members at the same versions
+    if d is not None:
+        ops = world.operations(d)
+
+        def multi(op, v, s, field, value):
+            req = world.at_version(op, ops[op], v)
+            req['version'] = s
+            body = req['body'] if op[1] == '/allocations' \
+                else req['body']['allocations']
+            for e in body.values():
+                e[field] = value(e) if callable(value) else value
+            return req
+        for op, frm in ((('POST', '/allocations'), 13),
+                        (('POST', '/reshaper'), 30)):
+            for field, n, value in (
+                    ('mappings', 34,
+                     lambda e: {'': sorted(e['allocations'])}),
+                    ('consumer_type', 38, 'INSTANCE'),
+                    ('consumer_generation', 28,
+                     lambda e: e.get('consumer_generation'))):
+                if n <= frm:
+                    continue
+                add('1.%d %s accepted in %s %s' % (n, field, op[0], op[1]),
+                    n, lambda v, s, op=op, field=field, value=value:
+                    multi(op, v, s, field, value),
+                    st_in(204), st_in(400), frm)
     add('1.34 mappings in candidates', 34,
         lambda v, s: Req('GET', '/allocation_candidates?resources=VCPU:1',
                          s),
